@@ -518,3 +518,79 @@ func VerifC22_readerDeep() {
 	runReaderC22(vrt.Bytes("stream", L), nil, vrt.Param("CH", 1), 0, vrt.Param("NOPS", 3),
 		menuShortC22[:vrt.Param("MENU", 4)])
 }
+
+// ---------- focused harnesses added after the seeded-change review ----------
+
+// UnreadByte after a Peek that had to refill: the refill slides the unread bytes to index 0 of the buffer,
+// so there is no room in front of them for the byte to be given back.
+var menuUnreadC22 = []opC22{
+	{opReadByteC22, 0}, {opPeekC22, 2}, {opUnreadByteC22, 0}, {opReadC22, 2}, {opPeekC22, 3},
+}
+
+// VerifC22_readerUnread: scripts of NOPS operations over {ReadByte, Peek 2, UnreadByte, ...} on streams of
+// 0..L bytes handed out one byte (or all that fits) per underlying read: ReadByte, Peek (refill + slide),
+// UnreadByte must leave the cursor, the buffered bytes and the counter consistent whether or not the
+// UnreadByte is accepted.
+func VerifC22_readerUnread() {
+	L := vrt.Range("L", 0, vrt.Param("L", 3))
+	runReaderC22(vrt.Bytes("stream", L), nil, vrt.Param("CH", 1), 0, vrt.Param("NOPS", 3),
+		menuUnreadC22[:vrt.Param("MENU", 3)])
+}
+
+// sinkRFC22 is an underlying writer that also implements io.ReaderFrom (like *net.TCPConn or
+// bytes.Buffer): ReadFrom drains r to io.EOF with reads of 8 bytes and appends everything to data.
+type sinkRFC22 struct {
+	sinkC22
+	rfCalls int
+}
+
+func (s *sinkRFC22) ReadFrom(r io.Reader) (int64, error) {
+	s.rfCalls++
+	var n int64
+	var tmp [8]byte
+	for i := 0; i < 64; i++ {
+		m, err := r.Read(tmp[:])
+		s.data = append(s.data, tmp[:m]...)
+		n += int64(m)
+		if err == io.EOF {
+			return n, nil
+		}
+		if err != nil {
+			return n, err
+		}
+	}
+	return n, io.ErrNoProgress
+}
+
+// VerifC22_writerReaderFrom: Writer(16) over an unlimited sink that implements io.ReaderFrom: one Write of
+// 0 / 3 / 14 symbolic bytes (so the buffer is empty / partly filled at the call), optionally a Flush, then
+// ReadFrom(source of 3 / 17 / 30 symbolic bytes, three chunk plans), then Flush. Whichever way the bytes
+// travel (through the buffer, handed to the sink's ReadFrom, or both): ReadFrom returns the number of bytes
+// taken from the source, the sink receives head+body in order, TotalWrite grows by exactly that number.
+func VerifC22_writerReaderFrom() {
+	sink := &sinkRFC22{sinkC22: sinkC22{room: -1}}
+	w := NewWriterSize(sink, bufC22)
+	headLens := []int{0, 3, 14}
+	head := vrt.Bytes("head", headLens[vrt.Choose("head", len(headLens))])
+	n0, err0 := w.Write(head)
+	vrt.Assert(n0 == len(head) && err0 == nil, "C22/write-short-iff-error")
+	if vrt.Choose("flush", 2) == 1 {
+		vrt.Assert(w.Flush() == nil && w.Buffered() == 0, "C22/flush-empties")
+	}
+	vrt.Assert(w.TotalWrite == len(head), "C22/total-write")
+	bodyLens := []int{3, 17, 30}
+	body := vrt.Bytes("rf", bodyLens[vrt.Choose("body", vrt.Param("BODIES", len(bodyLens)))])
+	src := &srcC22{data: body, plan: plansRFC22[vrt.Choose("plan", len(plansRFC22))], eofWithData: vrt.Choose("eofmode", 2) == 1}
+	tw0 := w.TotalWrite
+	n, err := w.ReadFrom(src)
+	vrt.Assert(err == nil && src.pos == len(body), "C22/readfrom-reads-to-eof")
+	vrt.Assert(int(n) == src.pos, "C22/readfrom-count")
+	vrt.Assert(len(sink.data)+w.Buffered() == len(head)+len(body), "C22/writer-position")
+	vrt.Assert(w.TotalWrite-tw0 == len(body), "C22/total-write")
+	if sink.rfCalls > 0 {
+		vrt.Cover("C22/readfrom-delegated")
+	}
+	vrt.Assert(w.Flush() == nil, "C22/writer-flushed-all")
+	all := append(append([]byte{}, head...), body...)
+	vrt.Assert(len(sink.data) == len(all) && prefixC22(all, sink.data), "C22/writer-stream")
+}
